@@ -33,7 +33,7 @@ func NewSetupServerSession(username, pin string) (*SetupServerSession, error) {
 			pairing := SetupServerSession{
 				session:   session,
 				Salt:      salt,
-				PublicKey: session.GetB(),
+				PublicKey: leftPad(session.GetB(), srpPublicKeyLength),
 				Username:  []byte(username),
 			}
 			return &pairing, nil
@@ -41,6 +41,21 @@ func NewSetupServerSession(username, pin string) (*SetupServerSession, error) {
 	}
 
 	return nil, err
+}
+
+// srpPublicKeyLength is the length of a public key, i.e. of the modulus of the 3072 bit group.
+const srpPublicKeyLength = 384
+
+// leftPad returns b with leading zeros, n bytes long. A public key is sent
+// with its full length, also when the number has leading zero bytes.
+func leftPad(b []byte, n int) []byte {
+	if len(b) >= n {
+		return b
+	}
+
+	padded := make([]byte, n)
+	copy(padded[n-len(b):], b)
+	return padded
 }
 
 // ProofFromClientProof validates client proof (`M1`) and returns authenticator or error if proof is not valid.
